@@ -19,7 +19,8 @@ MODULES = ['nl.bsn', 'nl.onderwijsnummer', 'pl.nip', 'pl.regon', 'pt.nif', 'dk.c
            'bg.egn', 'cu.ni', 'cz.rc', 'sk.rc', 'lt.asmens', 'ro.cnp', 'kr.rrn', 'gr.amka', 'is_.kennitala', 'dk.cpr', 'za.idnr',
            'es.cups', 'es.nif', 'es.referenciacatastral', 'fr.nir', 'in_.gstin', 'si.emso', 'tn.mf', 'tw.ubn', 'ua.rntrc', 'us.ptin',
            'bg.vat', 'cz.dic', 'sk.dph', 'ro.cf', 'th.tin', 'it.codicefiscale', 'mu.nid', 'eu.at_02', 'mx.rfc', 'mx.curp', 'se.personnummer', 'cz.bankaccount',
-           'no.fodselsnummer', 'fi.hetu', 'ch.ssn', 'lv.pvn', 'pl.pesel', 'ee.ik']
+           'no.fodselsnummer', 'fi.hetu', 'ch.ssn', 'lv.pvn', 'pl.pesel', 'ee.ik',
+           'iso6346', 'be.eid', 'de.stnr', 'sg.uen', 'ro.onrc', 'id.nik', 'id.npwp', 'cn.ric', 'be.nn', 'be.bis', 'us.ssn', 'us.itin', 'us.atin', 'us.ein', 'nz.bankaccount', 'my.nric', 'mac', 'imsi', 'cfi', 'isil', 'at.postleitzahl']
 
 
 def worker(unit, emit):
